@@ -38,6 +38,8 @@ After(s, o) ==
     [] o.kind = "revoke" -> [s EXCEPT ![o.h] = None]
     \* revoke by host name (`nauyaca tofu revoke HOST` without a port): every pin of that NAME, on any port - and of no other name
     [] o.kind = "revokeName" -> [x \in Hosts |-> IF NameOf(x) = NameOf(o.h) THEN None ELSE s[x]]
+    \* revoke(host, port) with a port no pin is stored under (0, or none at all handed through by a caller): names nothing
+    [] o.kind = "revokeNoPort" -> s
     [] o.kind = "clear"  -> [h \in Hosts |-> None]
     [] o.kind = "import" -> IF Fails(s, o) THEN s
                             ELSE ApplyEntries(IF o.merge THEN s ELSE [h \in Hosts |-> None], o.entries, o.policy)
@@ -49,7 +51,7 @@ Txn(st) == [open |-> TRUE, s |-> st]
 Init == /\ committed \in Store /\ txn = NoTxn /\ op \in Ops /\ pc = 0
         /\ before = committed /\ outcome = "running"
 \* single-statement operations: one write statement, then COMMIT
-Write1 == /\ pc = 0 /\ op.kind \in {"trust", "revoke", "revokeName", "clear"}
+Write1 == /\ pc = 0 /\ op.kind \in {"trust", "revoke", "revokeName", "revokeNoPort", "clear"}
           /\ txn' = Txn(After(committed, op)) /\ pc' = CommitPc
           /\ UNCHANGED <<committed, op, before, outcome>>
 \* import: optional clear, then one entry per step
@@ -94,6 +96,7 @@ FailureRaises == (op.kind = "import" /\ Fails(before, op) /\ NoDup(op)) => outco
 OthersUntouched == \A h \in Hosts :
    (op.kind \in {"trust", "revoke"} /\ h # op.h) \/
    (op.kind = "revokeName" /\ NameOf(h) # NameOf(op.h)) \/
+   (op.kind = "revokeNoPort") \/
    (op.kind = "import" /\ op.merge /\ \A i \in 1..Len(op.entries) : op.entries[i].h # h)
       => committed[h] = before[h]
 =============================================================================
